@@ -99,6 +99,8 @@ func projNode(n ast.Node) interface{} {
 			}
 		}
 		return obj{"k": "map", "kn": kn, "vs": vs}
+	case *ast.ConstantNode:
+		return obj{"k": "const"}
 	case *ast.PairNode:
 		return obj{"k": "pair", "key": projNode(t.Key), "value": projNode(t.Value)}
 	}
